@@ -55,13 +55,19 @@ theorem unset_always (cfg : Protocol) (t : Int) : effective cfg 0 0 t = true := 
     with `from ≠ 0`, and `(from, until)` verbatim otherwise -/
 theorem parser_hands_same_pair (cfg : Protocol) (frm untl : Int) :
     validatorPair cfg frm untl =
-      (frm, if frm ≠ 0 ∧ untl = 0 then frm + cfg.maxOperationTimeDelta else untl) := by
+      (frm, capInt64 (if frm ≠ 0 ∧ untl = 0 then frm + cfg.maxOperationTimeDelta else untl)) := by
   simp [validatorPair, anchorUntil, defaultDelta_parser]
 
-/-- the applier's window upper bound and the parser's validator argument coincide -/
+/-- the applier's window upper bound and the parser's validator argument coincide, up to the
+    greatest value an int64 can hold -/
 theorem parser_applier_agree (cfg : Protocol) (frm untl : Int) :
-    (validatorPair cfg frm untl).2 = anchorUntil cfg Expected.anchorUntilParamApplier frm untl := by
+    (validatorPair cfg frm untl).2 = capInt64 (anchorUntil cfg Expected.anchorUntilParamApplier frm untl) := by
   simp [validatorPair, anchorUntil, defaultDelta_parser, defaultDelta_applier]
+
+/-- … which no time an int64 validator can know tells apart from the bound itself -/
+theorem capped_bound_same_verdict (x t : Int) (ht : t ≤ maxInt64) : t ≤ capInt64 x ↔ t ≤ x := by
+  unfold capInt64
+  split <;> omega
 
 theorem out_of_window_update (cfg : Protocol) (frm untl t : Int)
     (h : effective cfg frm untl t = false) : outcome cfg .update frm untl t = .ineffective := by
